@@ -43,9 +43,11 @@ import (
 	"fmt"
 	"io"
 	"math/big"
+	"math/bits"
 	"os"
 	"path/filepath"
 	"sort"
+	"strconv"
 	"strings"
 	"time"
 
@@ -214,6 +216,42 @@ type loadSpec struct {
 	PEM     []byte   `json:"pem"`              // the input text (JSON: base64)
 	Source  string   `json:"source,omitempty"` // "" data | nil-reader | failing-reader | missing-file
 	Reuse   []byte   `json:"reuse,omitempty"`  // loaded (defaults) into the same Key object first
+	// bulk data around the PEM text, generated at run time from (kind, size) so that case files stay small:
+	// kind "ws" = white space, "text" = comment lines (ends with a newline), "data" = arbitrary trailing lines
+	LeadKind  string `json:"lead_kind,omitempty"`
+	LeadN     int    `json:"lead_n,omitempty"`
+	TrailKind string `json:"trail_kind,omitempty"`
+	TrailN    int    `json:"trail_n,omitempty"`
+}
+
+func padding(kind string, n int) []byte {
+	if n <= 0 {
+		return nil
+	}
+	var unit string
+	switch kind {
+	case "ws":
+		unit = " \n\t \r\n  \n"
+	case "text":
+		unit = "# in-toto functionary key, exported by some tool; this line is a comment\n"
+	default:
+		unit = "trailing data after the END line 0123456789 abcdefghijklmnopqrstuvwxyz\n"
+	}
+	b := bytes.Repeat([]byte(unit), n/len(unit)+1)[:n]
+	if kind != "data" {
+		b[n-1] = '\n' // the BEGIN line must start a line
+	}
+	return b
+}
+
+// text is the complete input handed to the loader
+func (l loadSpec) text() []byte {
+	if l.LeadN == 0 && l.TrailN == 0 {
+		return l.PEM
+	}
+	out := append([]byte{}, padding(l.LeadKind, l.LeadN)...)
+	out = append(out, l.PEM...)
+	return append(out, padding(l.TrailKind, l.TrailN)...)
 }
 
 func (l loadSpec) algs() []string {
@@ -275,7 +313,7 @@ func runLoad(l loadSpec) (k intoto.Key, err error, panicked bool) {
 		case "failing-reader":
 			r = failReader{}
 		default:
-			r = bytes.NewReader(l.PEM)
+			r = bytes.NewReader(l.text())
 		}
 		if l.API == "reader" {
 			err = k.LoadKeyReader(r, l.Scheme, l.algs())
@@ -286,7 +324,7 @@ func runLoad(l loadSpec) (k intoto.Key, err error, panicked bool) {
 		path := filepath.Join(tmpDir, "key.pem")
 		if l.Source == "missing-file" {
 			path = filepath.Join(tmpDir, "does-not-exist.pem")
-		} else if e := os.WriteFile(path, l.PEM, 0o600); e != nil {
+		} else if e := os.WriteFile(path, l.text(), 0o600); e != nil {
 			panic(e)
 		}
 		if l.API == "file" {
@@ -348,7 +386,22 @@ func showImpl(k intoto.Key, err error, panicked bool) string {
 	} else {
 		kk.KeyID = "BAD-ID:" + k.KeyID
 	}
-	return "OK" + lib.ShowKey(kk)
+	return compact("OK" + lib.ShowKey(kk))
+}
+
+// compact mirrors model/KeyLoad.v compact: long observables become prefix + digest + length
+func compact(s string) string {
+	if len(s) <= 8000 {
+		return s
+	}
+	const m = 2305843009213693951 // 2^61-1, as obs_hash of model/Show.v
+	var h uint64 = 7
+	for i := 0; i < len(s); i++ {
+		hi, lo := bits.Mul64(h, 1000003)
+		_, h = bits.Div64(hi, lo, m)
+		h = (h + uint64(s[i]) + 1) % m
+	}
+	return s[:400] + "...#" + strconv.FormatUint(h, 10) + "/" + strconv.Itoa(len(s))
 }
 
 // does the public string of the loaded key denote exactly this public key?
@@ -572,7 +625,20 @@ func coqHex(b []byte) string {
 	if len(b) == 0 {
 		return "(@nil N)"
 	}
-	return `(hx "` + hex.EncodeToString(b) + `")`
+	// long literals are split: Coq builds a string literal as one deeply nested term
+	const chunk = 2048
+	if len(b) <= chunk {
+		return `(hx "` + hex.EncodeToString(b) + `")`
+	}
+	var parts []string
+	for i := 0; i < len(b); i += chunk {
+		j := i + chunk
+		if j > len(b) {
+			j = len(b)
+		}
+		parts = append(parts, `hx "`+hex.EncodeToString(b[i:j])+`"`)
+	}
+	return "(" + strings.Join(parts, " ++ ") + ")"
 }
 
 func coqObj(o *kobj) string {
@@ -618,7 +684,7 @@ func coqModel(l loadSpec) string {
 	var call string
 	switch l.API {
 	case "reader", "reader-defaults":
-		r := "(RData " + coqPemData(l.PEM) + ")"
+		r := "(RData " + coqPemData(l.text()) + ")"
 		switch l.Source {
 		case "nil-reader":
 			r = "RNil"
@@ -631,7 +697,7 @@ func coqModel(l loadSpec) string {
 			call = "load_key_reader_defaults sha_id b64_lines " + r
 		}
 	default:
-		f := "(Some " + coqPemData(l.PEM) + ")"
+		f := "(Some " + coqPemData(l.text()) + ")"
 		if l.Source == "missing-file" {
 			f = "None"
 		}
@@ -804,6 +870,124 @@ func (g *gen) validLoads(tier string) {
 			for _, d := range ds {
 				l := g.specFor(p, g.r.Pick(apis), d.F(g, p, f))
 				g.emit("decorated-"+d.Name, l, g.expectOK(p, f, d.Name, l))
+			}
+		}
+	}
+}
+
+// sizes of surrounding data: nothing in the property bounds them
+var padSizes = []int{1 << 10, 8<<10 - 1, 8 << 10, 8<<10 + 1, 16 << 10, 64 << 10, 1 << 20}
+
+func sizeName(n int) string {
+	switch {
+	case n == 8<<10-1:
+		return "8KiB-1"
+	case n == 8<<10+1:
+		return "8KiB+1"
+	case n >= 1<<20:
+		return fmt.Sprintf("%dMiB", n>>20)
+	}
+	return fmt.Sprintf("%dKiB", n>>10)
+}
+
+// a key behind / in front of 1 KiB ... 1 MiB of white space, text or trailing data, through all four loaders
+func (g *gen) sizedLoads(tier string) {
+	for pi, p := range g.pairs {
+		fs := g.forms[p.Name]
+		// quick: one form per pair (rotating; RSA 2048 its PKIX form, RSA 3072 its PKCS#1 form),
+		// thorough: every form
+		sel := []form{fs[pi%len(fs)]}
+		if p.Name == "rsa2048" {
+			sel = []form{fs[2]}
+		}
+		full := p.Name == "ecdsa256-fresh0" || p.Name == "ed25519-fresh0"
+		if tier == "thorough" {
+			sel = fs
+			full = strings.HasSuffix(p.Name, "fresh0") || p.Name == "rsa2048"
+		}
+		for _, f := range sel {
+			plain := pemOf(f.PemType, f.DER)
+			for _, n := range padSizes {
+				for _, kind := range []string{"lead-ws", "lead-text", "trail-data", "both"} {
+					for _, api := range apis {
+						// every size and kind through every loader for one ECDSA and one Ed25519 pair (small
+						// inputs for the model; thorough: one pair of every kind and RSA 2048), one loader in
+						// four at random for the others
+						if !full && api != apis[g.r.Intn(len(apis))] {
+							continue
+						}
+						l := g.specFor(p, api, plain)
+						switch kind {
+						case "lead-ws":
+							l.LeadKind, l.LeadN = "ws", n
+						case "lead-text":
+							l.LeadKind, l.LeadN = "text", n
+						case "trail-data":
+							l.TrailKind, l.TrailN = "data", n
+						default:
+							l.LeadKind, l.LeadN, l.TrailKind, l.TrailN = "ws", n, "data", n
+						}
+						g.emit("sized-"+kind+"-"+sizeName(n), l, g.expectOK(p, f, kind+"-"+sizeName(n), l))
+					}
+				}
+			}
+		}
+	}
+}
+
+// certificates of about 4, 12 and 40 KiB (many subject alternative names, long subject)
+func bigCertDER(p pair, target int, selfSigned bool) []byte {
+	serial++
+	tmpl := &x509.Certificate{
+		SerialNumber: big.NewInt(serial),
+		Subject: pkix.Name{CommonName: "c19 large certificate " + p.Name,
+			Organization:       []string{strings.Repeat("Organisation with a long name ", 6)},
+			OrganizationalUnit: []string{strings.Repeat("unit-", 40), strings.Repeat("department-", 20)}},
+		NotBefore: time.Now().Add(-time.Hour), NotAfter: time.Now().Add(24 * time.Hour),
+		KeyUsage: x509.KeyUsageDigitalSignature,
+	}
+	// each SAN costs about 43 bytes of DER, i.e. about 58 bytes of PEM; the rest of the certificate about 1.5 KiB
+	for i := 0; len(tmpl.DNSNames)*58+1500 < target; i++ {
+		tmpl.DNSNames = append(tmpl.DNSNames, fmt.Sprintf("builder-%05d.functionaries.example.org", i))
+	}
+	var parent *x509.Certificate = tmpl
+	var signer crypto.Signer = p.Signer
+	if !selfSigned {
+		parent, signer = theCA().Cert, theCA().Signer
+	}
+	der, err := x509.CreateCertificate(rand.Reader, tmpl, parent, p.Signer.Public(), signer)
+	if err != nil {
+		panic(fmt.Sprintf("large certificate for %s: %v", p.Name, err))
+	}
+	return der
+}
+
+func (g *gen) bigCertLoads(tier string) {
+	for pi, p := range g.pairs {
+		// quick: RSA 3072 (12 KiB only), the first ECDSA pair (all sizes) and the first Ed25519 pair (4, 12 KiB)
+		sizes := []int{4 << 10, 12 << 10, 40 << 10}
+		if tier == "thorough" {
+			if !(strings.HasSuffix(p.Name, "fresh0") || strings.HasPrefix(p.Name, "rsa")) {
+				continue
+			}
+		} else {
+			switch {
+			case p.Name == "rsa3072":
+				sizes = []int{12 << 10}
+			case p.Name == "ecdsa256-fresh0":
+			case p.Name == "ed25519-fresh0":
+				sizes = []int{4 << 10, 12 << 10}
+			default:
+				continue
+			}
+		}
+		for si, target := range sizes {
+			der := bigCertDER(p, target, (pi+si)%2 == 0)
+			f := form{"cert-large", "CERTIFICATE", der, false, true}
+			text := pemOf(f.PemType, f.DER)
+			for _, api := range apis {
+				l := g.specFor(p, api, text)
+				g.emit(fmt.Sprintf("large-certificate-%dKiB", (len(text)+512)>>10), l, g.expectOK(p, f, "large", l))
 			}
 		}
 	}
@@ -1333,6 +1517,8 @@ func main() {
 			g.forms[p.Name] = formsOf(p)
 		}
 		g.validLoads(tier)
+		g.sizedLoads(tier)
+		g.bigCertLoads(tier)
 		g.greyLoads(tier)
 		g.refusedLoads(tier)
 		g.relations()
